@@ -553,6 +553,8 @@ def verify_unit(cname, case_label, tier, seed):
 
         def run(it):
             it.hooks = dict(C.hooks)
+            if C.target is not None:
+                it.force.add(getattr(C.target, '__func__', C.target))
             a = copy.copy(args)
             if C.call is not None:
                 return it.call_function(C.call, [], a) if inspect.isfunction(C.call) else C.call(**a)
